@@ -29,8 +29,6 @@ import (
 	"github.com/tochemey/goakt/v4/internal/internalpb"
 	"github.com/tochemey/goakt/v4/internal/remoteclient"
 	"github.com/tochemey/goakt/v4/internal/verifhook"
-	"github.com/tochemey/goakt/v4/log"
-	"github.com/tochemey/goakt/v4/remote"
 	"github.com/tochemey/goakt/v4/verifharness/sched"
 	"github.com/tochemey/goakt/v4/verifharness/vtrace"
 )
@@ -189,20 +187,13 @@ func (s *stubRemoting) RemoteTell(ctx context.Context, from, to *address.Address
 func newHWorld(maskExp int) *hworld {
 	ctx := context.Background()
 	w := &hworld{maskExp: maskExp, nodes: map[string]*discovery.Node{}}
-	ports := freePorts(6)
+	sys, port := startSystem(fmt.Sprintf("h%d", maskExp))
+	ports := append([]int{port}, freePorts(5)...)
 	var dns []*discovery.Node
 	for i, n := range []string{"a", "l", "d"} {
 		dn := &discovery.Node{Name: n, Host: "127.0.0.1", PeersPort: ports[2*i+1], RemotingPort: ports[2*i]}
 		dns = append(dns, dn)
 		w.nodes[n] = dn
-	}
-	sys, err := actor.NewActorSystem(fmt.Sprintf("h%d", maskExp), actor.WithLogger(log.DiscardLogger),
-		actor.WithRemote(remote.NewConfig("127.0.0.1", w.nodes["a"].RemotingPort)))
-	if err != nil {
-		fatal(err)
-	}
-	if err := sys.Start(ctx); err != nil {
-		fatal("start:", err)
 	}
 	w.sys = sys
 	w.client = &fakeClient{nodes: dns, leader: "a"}
@@ -213,6 +204,7 @@ func newHWorld(maskExp int) *hworld {
 		fatal("join:", err)
 	}
 	actor.VerifSetRemoting(sys, func(c remoteclient.Client) remoteclient.Client { return &stubRemoting{Client: c, w: w} })
+	var err error
 	w.sender, err = sys.Spawn(ctx, "sender", &senderActor{})
 	if err != nil {
 		fatal("spawn sender:", err)
